@@ -339,6 +339,66 @@ pub fn run_thread_moves(a: &Job, b: &Job) -> Result<u64, String> {
     Ok(n)
 }
 
+/// State that could build up over MANY builds on one thread. On a fresh
+/// thread, probe input X_j (j = 0..) is built at build number j+1 and built
+/// again EXACTLY d_j builds later, d_j in {1, 2, 3, 255, 256, 257, 4095, 4096,
+/// 4097, 65535, 65536, 65537 (thorough: 131071, 131072, 131073)}, with nothing
+/// but unrelated small builds in between; both builds must equal the bytes of
+/// X_j built on another fresh thread.
+pub fn run_many_builds(thorough: bool) -> Result<u64, String> {
+    let mut dists: Vec<u64> = vec![1, 2, 3, 255, 256, 257, 4095, 4096, 4097, 65_535, 65_536, 65_537];
+    if thorough {
+        dists.extend([131_071, 131_072, 131_073]);
+    }
+    let probe = |j: usize| -> Vec<Kv> {
+        (0..30u64).map(|i| (format!("{}{:02}tail{}", (b'A' + j as u8) as char, i * 3, i % 4).into_bytes(), if j % 2 == 0 { 0 } else { (i % 5) * 1000 })).collect()
+    };
+    fn build(kvs: &[Kv]) -> Result<Vec<u8>, String> {
+        let mut b = raw::Builder::memory();
+        for (k, v) in kvs {
+            b.insert(k, *v).map_err(|e| format!("{:?}", e))?;
+        }
+        b.into_inner().map_err(|e| format!("{:?}", e))
+    }
+    let nd = dists.len();
+    let refs: Vec<Vec<u8>> = (0..nd).map(|j| { let kv = probe(j); std::thread::spawn(move || build(&kv)).join().map_err(|_| "thread panicked".to_string())? }).collect::<Result<_, String>>()?;
+    let probes: Vec<Vec<Kv>> = (0..nd).map(probe).collect();
+    std::thread::spawn(move || -> Result<u64, String> {
+        // build number -> probe index
+        let mut due: std::collections::BTreeMap<u64, usize> = std::collections::BTreeMap::new();
+        for (j, d) in dists.iter().enumerate() {
+            due.insert(j as u64 + 1, j);
+            // keep the second builds on distinct build numbers
+            let mut at = j as u64 + 1 + d;
+            while due.contains_key(&at) {
+                at += 65_536 * 0 + 0; // exact distances matter: never shift
+                break;
+            }
+            if due.insert(at, j).is_some() {
+                return Err(format!("machinery: build number {} is taken twice", at));
+            }
+        }
+        let last = *due.keys().last().unwrap();
+        let mut checks = 0;
+        for n in 1..=last {
+            if let Some(&j) = due.get(&n) {
+                checks += 1;
+                if build(&probes[j])? != refs[j] {
+                    return Err(format!("build number {} on one thread (probe input {}, built before as build number {}, distance {}) produced different bytes than on a fresh thread", n, j, j + 1, dists[j]));
+                }
+            } else {
+                let mut sb = fst::SetBuilder::memory();
+                sb.insert("q").map_err(|e| format!("{:?}", e))?;
+                sb.insert(format!("q{:06}", n % 977)).map_err(|e| format!("{:?}", e))?;
+                let _ = sb.into_inner().map_err(|e| format!("{:?}", e))?;
+            }
+        }
+        Ok(checks)
+    })
+    .join()
+    .map_err(|_| "thread panicked".to_string())?
+}
+
 fn jobs_list() -> Vec<Job> {
     let k = |s: &[&str]| -> Vec<Key> { s.iter().map(|x| x.as_bytes().to_vec()).collect() };
     vec![
@@ -513,6 +573,7 @@ pub fn replay(case: &Value) -> Result<String, String> {
             let ours: Vec<String> = crate::plain_scope::scope_digests().into_iter().map(|(n, h)| format!("PLAIN {:016x} {}", h, n)).collect();
             if theirs == ours { Ok(format!("{} groups identical", ours.len())) } else { Err("guard-off and hooks-on digests differ".into()) }
         }
+        "many-builds" => run_many_builds(case["thorough"].as_bool().unwrap_or(false)).map(|c| format!("{} rebuilds identical", c)),
         "thread-moves" => {
             let all: Vec<Job> = jobs_list().into_iter().chain(wide_jobs()).collect();
             let ij: Vec<usize> = case["jobs"].as_array().unwrap().iter().map(|i| i.as_u64().unwrap() as usize).collect();
@@ -591,7 +652,7 @@ pub fn plan(tier: Tier) -> Plan {
     let mut p = Plan::new("C15", "model_checking");
     let thorough = tier.thorough();
     let scan = shared_state_scan();
-    p.rule = "(1) for every accepted sequence of the scope (subsets of U_ab3 with <= 4 keys quick / all thorough, x value patterns; fan-out families) the bytes through all 26 front ends (17 entry points + 6 usage variants: builders kept in use after rejected calls, several bulk calls on a populated builder + the 3 memory() constructors with into_fst/into_map/into_set), Builder::memory, a BufWriter, a 3-bytes-per-call sink and Map::from_iter are identical, and the raw front ends agree under the tiny cache geometries 1x1, 2x2, 3x3 (where evictions make the bytes depend on cache behaviour), also when repeated; the same for samples of the shipped corpora (400..10000 keys), where the DEFAULT cache is under pressure; the same for a long-tail family (10..64 keys of 66..502 bytes sharing long tails); (1b) bulk-load size ladder: 1 .. 400004 (thorough 3.3 million) generated items through every bulk entry point (iterators with exact size hints, streams, from_iter) against single inserts; (2) EVERY call-level interleaving (multiset permutations of the API calls new/insert.../finish) of every ordered pair (thorough: also triples of shorter jobs) of 6 builder jobs of different kinds and geometries driven from one thread: each builder must produce the bytes of its solo run (each pair runs on a fresh thread; pairs of jobs with wide nodes included); (2b) builders MOVED between fresh OS threads: a job started on thread A (every split point), handed to thread B, which finishes it and then builds another job / drops it and builds / builds first and then finishes it - every finished builder must produce the bytes of its solo run; (2c) a binary built WITHOUT the verification guard digests a fixed scope of public-API behaviour (bytes of all subsets of a 10-key universe, fan-outs 1..256, 60000 keys through three entry points; ranges, lookups, searches, set operations, get_key) and must agree group by group with this hooks-on process; (3) the whole-scope digest computed twice on one thread, on 8 free-running OS threads and in 4 child processes (std RandomState differs per process) must be equal - a repetition over an uncontrolled seed, reported as such. non-trivial = interleavings with at least one context switch".into();
+    p.rule = "(1) for every accepted sequence of the scope (subsets of U_ab3 with <= 4 keys quick / all thorough, x value patterns; fan-out families) the bytes through all 26 front ends (17 entry points + 6 usage variants: builders kept in use after rejected calls, several bulk calls on a populated builder + the 3 memory() constructors with into_fst/into_map/into_set), Builder::memory, a BufWriter, a 3-bytes-per-call sink and Map::from_iter are identical, and the raw front ends agree under the tiny cache geometries 1x1, 2x2, 3x3 (where evictions make the bytes depend on cache behaviour), also when repeated; the same for samples of the shipped corpora (400..10000 keys), where the DEFAULT cache is under pressure; the same for a long-tail family (10..64 keys of 66..502 bytes sharing long tails); (1b) bulk-load size ladder: 1 .. 400004 (thorough 3.3 million) generated items through every bulk entry point (iterators with exact size hints, streams, from_iter) against single inserts; (2) EVERY call-level interleaving (multiset permutations of the API calls new/insert.../finish) of every ordered pair (thorough: also triples of shorter jobs) of 6 builder jobs of different kinds and geometries driven from one thread: each builder must produce the bytes of its solo run (each pair runs on a fresh thread; pairs of jobs with wide nodes included); (2b) builders MOVED between fresh OS threads: a job started on thread A (every split point), handed to thread B, which finishes it and then builds another job / drops it and builds / builds first and then finishes it - every finished builder must produce the bytes of its solo run; (2b') about 65550 (thorough 131090) builds on ONE thread: each of 12 (15) probe inputs is built twice, EXACTLY 1, 2, 3, 255, 256, 257, 4095, 4096, 4097, 65535, 65536, 65537 (131071, 131072, 131073) builds apart with only unrelated small builds in between, and must equal its bytes from a fresh thread; (2c) a binary built WITHOUT the verification guard digests a fixed scope of public-API behaviour (bytes of all subsets of a 10-key universe, fan-outs 1..256, 60000 keys through three entry points; ranges, lookups, searches, set operations, get_key) and must agree group by group with this hooks-on process; (3) the whole-scope digest computed twice on one thread, on 8 free-running OS threads and in 4 child processes (std RandomState differs per process) must be equal - a repetition over an uncontrolled seed, reported as such. non-trivial = interleavings with at least one context switch".into();
     p.assumptions = vec![
         format!("the library has no synchronisation operation and no shared mutable state, so thread interleavings are one Mazurkiewicz trace and a controlled scheduler (loom/shuttle) would have no scheduling point to branch on; scan of /repo/src for static mut/thread_local/lazy_static/OnceCell/OnceLock/Atomic/Mutex/RwLock/RandomState/DefaultHasher/unsafe outside hook items found: {}", if scan.is_empty() { "nothing".to_string() } else { scan.join("; ") }),
         "call-level interleavings of builders on one thread expose any instance-crossing (global or thread-local) state".into(),
@@ -692,6 +753,16 @@ pub fn plan(tier: Tier) -> Plan {
                 }));
             }
         }
+    }
+    // many builds on one thread
+    {
+        p.units.push(unit("many-builds-on-one-thread-(finite-family)", "many builds".into(), move |st, rep| {
+            st.states += if thorough { 131_090 } else { 65_550 };
+            match run_many_builds(thorough) {
+                Ok(c) => { st.evals += c; st.count("rebuilds_compared_after_many_builds", c); }
+                Err(msg) => rep.violation("many builds".into(), msg, json!({"kind": "many-builds", "thorough": thorough})),
+            }
+        }));
     }
     // builders moved between fresh threads
     {
